@@ -756,6 +756,139 @@ theorem C09_values_attached_surface {ft : FaceTable} {m r : FEM α} (hw : WF m) 
   exact ⟨fun i hi => reslice_lookup hw.nodeIds hids hdata hi,
     fun name i hi => resliceNodal_at hw.nodeIds (fun kv hkv => (hal kv hkv).1) hids hnd name hi⟩
 
+/-! ## to_surface at facet level: exactly the faces that belong to one element, each once
+
+`C09_exact_selection_surface` says that every new element is a face; the clause "exactly the requested entities are
+retained" also needs the converse (no boundary face is dropped) and "each once".  `t3` / `t4` are the lists of ALL
+3- / 4-vertex faces of all elements (`facetsOfWidth`, characterised by `mem_facetsOfWidth` = `IsFacetOf`); the vertex set
+of a row is `faceKey row` (the sorted row, what `np.unique(axis=0)` compares). -/
+
+/-- `s` lists exactly the rows of `t` whose vertex set occurs once in `t`, and no vertex set twice -/
+def OnceOnlyRows (t s : List (List Id)) : Prop :=
+  (∀ row, row ∈ s ↔ row ∈ t ∧ (t.map faceKey).count (faceKey row) = 1) ∧ (s.map faceKey).Nodup
+
+theorem onceOnlyRows_onceOnly (t : List (List Id)) : OnceOnlyRows t (onceOnly t) :=
+  ⟨fun _ => mem_onceOnly, onceOnly_keys_nodup t⟩
+
+/-- the new elements of `r`, in element-id order, are the once-only triangle faces followed by the once-only
+    quadrangle faces of `m` -/
+def SurfaceIsOnceOnly (ft : FaceTable) (m r : FEM α) : Prop :=
+  ∃ t3 t4 s3 s4, facetsOfWidth ft m.elems 3 = some t3 ∧ facetsOfWidth ft m.elems 4 = some t4 ∧
+    r.elems.flatten.map (·.val) = s3 ++ s4 ∧ OnceOnlyRows t3 s3 ∧ OnceOnlyRows t4 s4
+
+/-- **exact selection, facet level** (`to_surface`): the surface elements are exactly the faces whose vertex set belongs
+    to one face of one element only - none is dropped, none is invented, none is repeated. (A deduplication through a
+    one-integer key instead of the rows does not have this property: `C09_radix_key_counterexample`.) -/
+theorem C09_surface_once_only {ft : FaceTable} {m r : FEM α} (h : toSurface ft m = .ok r) : SurfaceIsOnceOnly ft m r := by
+  obtain ⟨t3, t4, pt, pq, h3, h4, _, _, _, _, hel, _, _⟩ := toSurface_ok h
+  exact ⟨t3, t4, onceOnly t3, onceOnly t4, h3, h4, by rw [hel, surfaceElems_vals], onceOnlyRows_onceOnly t3,
+    onceOnlyRows_onceOnly t4⟩
+
+/-! ## to_surface(remove_unnecessary_nodes=False) -/
+
+theorem toSurfaceKeep_ok {ft : FaceTable} {m r : FEM α} (h : toSurfaceKeep ft m = .ok r) :
+    ∃ t3 t4, facetsOfWidth ft m.elems 3 = some t3 ∧ facetsOfWidth ft m.elems 4 = some t4 ∧
+      r = ⟨m.nodes, surfaceElems (onceOnly t3) (onceOnly t4), m.nodal, []⟩ := by
+  simp only [toSurfaceKeep] at h
+  split at h
+  · rename_i t3 t4 h3 h4
+    split at h
+    · cases h
+    · split at h
+      · rename_i pt pq hpt hpq
+        split at h
+        · rename_i st sq hst hsq
+          cases h
+          have e1 := ids_roundtrip hpt hst
+          have e2 := ids_roundtrip hpq hsq
+          subst e1 e2
+          exact ⟨t3, t4, h3, h4, rfl⟩
+        · cases h
+      · cases h
+  · cases h
+
+/-- **self-contained** (`to_surface(remove_unnecessary_nodes=False)`) -/
+theorem C09_self_contained_surface_keep {ft : FaceTable} {m r : FEM α} (hw : WF m) (h : toSurfaceKeep ft m = .ok r) :
+    SelfContained r := by
+  obtain ⟨t3, t4, h3, h4, rfl⟩ := toSurfaceKeep_ok h
+  refine ⟨hw.nodeIds, fun e' he' n hn => ?_⟩
+  have hfac : ∃ w, IsFacetOf ft m.elems w e'.val := by
+    rcases mem_surfaceElems he' with h' | h'
+    · exact ⟨3, (mem_facetsOfWidth h3).mp (mem_onceOnly.mp h').1⟩
+    · exact ⟨4, (mem_facetsOfWidth h4).mp (mem_onceOnly.mp h').1⟩
+  obtain ⟨w, hf⟩ := hfac
+  obtain ⟨e, he, hne⟩ := facet_nodes hf hn
+  exact hw.refs e he n hne
+
+/-- **exact selection** (`to_surface(remove_unnecessary_nodes=False)`): every node is kept, no elemental data is attached,
+    and the new elements are exactly the once-only faces, each once -/
+theorem C09_exact_selection_surface_keep {ft : FaceTable} {m r : FEM α} (h : toSurfaceKeep ft m = .ok r) :
+    r.nodes = m.nodes ∧ r.elemental = [] ∧ SurfaceIsOnceOnly ft m r := by
+  obtain ⟨t3, t4, h3, h4, rfl⟩ := toSurfaceKeep_ok h
+  exact ⟨rfl, rfl, t3, t4, onceOnly t3, onceOnly t4, h3, h4, surfaceElems_vals _ _, onceOnlyRows_onceOnly t3,
+    onceOnlyRows_onceOnly t4⟩
+
+/-- **values attached** (`to_surface(remove_unnecessary_nodes=False)`): nodes and nodal variables are passed on -/
+theorem C09_values_attached_surface_keep {ft : FaceTable} {m r : FEM α} (hw : WF m) (h : toSurfaceKeep ft m = .ok r) :
+    NodeValuesKept m r := by
+  obtain ⟨t3, t4, _, _, rfl⟩ := toSurfaceKeep_ok h
+  exact ⟨fun i hi => ⟨rfl, lookup_isSome_of_mem hw.nodeLen hi⟩, fun _ _ _ => rfl⟩
+
+/-! ## to_facets(remove_duplicates=False) -/
+
+theorem toFacetsAll_ok {ft : FaceTable} {m r : FEM α} (h : toFacetsAll ft m = .ok r) :
+    ∃ t3 t4, facetsOfWidth ft m.elems 3 = some t3 ∧ facetsOfWidth ft m.elems 4 = some t4 ∧
+      r = ⟨m.nodes, surfaceElems t3 t4, m.nodal, []⟩ := by
+  unfold toFacetsAll at h
+  split at h
+  · rename_i t3 t4 h3 h4
+    cases h
+    exact ⟨t3, t4, h3, h4, rfl⟩
+  · cases h
+
+/-- **self-contained** (`to_facets(remove_duplicates=False)`) -/
+theorem C09_self_contained_facets_all {ft : FaceTable} {m r : FEM α} (hw : WF m) (h : toFacetsAll ft m = .ok r) :
+    SelfContained r := by
+  obtain ⟨t3, t4, h3, h4, rfl⟩ := toFacetsAll_ok h
+  refine ⟨hw.nodeIds, fun e' he' n hn => ?_⟩
+  have hfac : ∃ w, IsFacetOf ft m.elems w e'.val := by
+    rcases mem_surfaceElems he' with h' | h'
+    · exact ⟨3, (mem_facetsOfWidth h3).mp h'⟩
+    · exact ⟨4, (mem_facetsOfWidth h4).mp h'⟩
+  obtain ⟨w, hf⟩ := hfac
+  obtain ⟨e, he, hne⟩ := facet_nodes hf hn
+  exact hw.refs e he n hne
+
+/-- **exact selection** (`to_facets(remove_duplicates=False)`): all nodes are kept, no elemental data is attached, and the
+    new elements, in element-id order, are ALL 3-vertex faces followed by ALL 4-vertex faces of the elements of `m`
+    (a face shared by two elements twice) -/
+theorem C09_exact_selection_facets_all {ft : FaceTable} {m r : FEM α} (h : toFacetsAll ft m = .ok r) :
+    r.nodes = m.nodes ∧ r.elemental = [] ∧
+    ∃ t3 t4, facetsOfWidth ft m.elems 3 = some t3 ∧ facetsOfWidth ft m.elems 4 = some t4 ∧
+      r.elems.flatten.map (·.val) = t3 ++ t4 := by
+  obtain ⟨t3, t4, h3, h4, rfl⟩ := toFacetsAll_ok h
+  exact ⟨rfl, rfl, t3, t4, h3, h4, surfaceElems_vals _ _⟩
+
+/-- **values attached** (`to_facets(remove_duplicates=False)`) -/
+theorem C09_values_attached_facets_all {ft : FaceTable} {m r : FEM α} (hw : WF m) (h : toFacetsAll ft m = .ok r) :
+    NodeValuesKept m r := by
+  obtain ⟨t3, t4, _, _, rfl⟩ := toFacetsAll_ok h
+  exact ⟨fun i hi => ⟨rfl, lookup_isSome_of_mem hw.nodeLen hi⟩, fun _ _ _ => rfl⟩
+
+/-! ## why rows, not one-integer keys -/
+
+/-- the one-integer key `Σ id_k · base^(m-1-k)` identifies rows of equal length as long as every id is below the base
+    (dense ids `1..n` with `base = n + 1`) ... -/
+theorem C09_radix_key_injective {base : Nat} {r s : List Nat} (hl : r.length = s.length)
+    (hr : ∀ x ∈ r, x < base) (hs : ∀ x ∈ s, x < base) (h : radixKey base r = radixKey base s) : r = s :=
+  (radixKey_aux r s 0 0 hl hr hs h).2
+
+/-- ... and not beyond: 9 nodes with ids {1..5, 11..14} (`base = 10`): the facets (2,3,4) and (1,12,14) get the key 234,
+    so a deduplication by key counts two different boundary facets as one interior facet and drops both. -/
+theorem C09_radix_key_counterexample :
+    radixKey 10 [2, 3, 4] = radixKey 10 [1, 12, 14] ∧ faceKey [2, 3, 4] ≠ faceKey [1, 12, 14] ∧
+    onceOnly [[2, 3, 4], [1, 12, 14]] = [[1, 12, 14], [2, 3, 4]] := by decide
+
 /-! ## non-vacuity: the hypotheses hold and every operation succeeds non-trivially on a concrete mesh
 
 Mixed mesh (two triangles + one tetrahedron), node ids unsorted in storage (30, 10, 20, 40, 50, 60), node 60
@@ -813,4 +946,10 @@ example : removeUselessNodes ({ exMesh with nodes := ⟨[30, 10, 20, 40, 60, 70]
   decide
 example : cutElemIds exMesh [99] = .error .value := by decide
 
+example : (toSurface faceTable exMesh).toOption.map (fun r => r.elems.flatten.map (·.val)) =
+    (do let t3 ← facetsOfWidth faceTable exMesh.elems 3; pure (onceOnly t3)) := by decide
+example : (toSurfaceKeep faceTable exMesh).toOption.map (fun r => (r.nodes.ids, r.elems.flatten.map (·.id))) =
+    some ([30, 10, 20, 40, 50, 60], [1, 2, 3, 4]) := by decide
+example : (toFacetsAll faceTable exMesh).toOption.map (fun r => (r.nodes.ids, r.elems.flatten.length)) =
+    some ([30, 10, 20, 40, 50, 60], 6) := by decide
 end Femio.C09
